@@ -133,6 +133,16 @@ Proof.
 Qed.
 Print Assumptions c07_errno_wire.
 
+(* ... and the code does cross: with a threshold of at least the 10 bytes a varint can take
+   (both codecs' defaults are thousands) and a length-preserving cipher (CFB) the frame is far
+   below either size limit, so the receiver exists and reads the code *)
+Theorem c07_errno_crosses : forall c thr enc e p, coders_ok c -> clean (flg p) -> in_s 32 e ->
+  10 <= thr -> (forall b, length (encrypt c b) = length b) -> Z.of_nat (length (refers p)) <= 255 ->
+  (exists q, wire_v1 c thr enc enc (set_errno e p) = Some q /\ errno q = e) /\
+  (exists q, wire_v2 c thr enc enc (set_errno e p) = Some q /\ errno q = e).
+Proof. exact errno_crosses. Qed.
+Print Assumptions c07_errno_crosses.
+
 (* the code is also what the sender itself reads, for every 8-bit flag value *)
 Theorem c07_errno_local : forall e p, 0 <= flg p < 256 -> in_s 32 e -> errno (set_errno e p) = e.
 Proof. exact errno_set. Qed.
